@@ -1,5 +1,6 @@
 import Gmx.Model.Whole
 import Gmx.Lemmas.PerpIdx
+import Gmx.Lemmas.PerpValue
 import Gmx.Lemmas.Liquidity
 import Gmx.Lemmas.Swap
 import Gmx.Props.C07
@@ -456,5 +457,90 @@ theorem run_indices_monotone (W U : Nat) (c : PerpCfg) (rc : RateCfg) (ops : Lis
   induction ops with
   | nil => intro s; exact IdxLe.refl _
   | cons o os ih => intro s; exact IdxLe.trans (step_indices_monotone W U c rc s o) (ih _)
+
+
+/-! ### the token ledger through the liquidity operations -/
+
+theorem side_ledger {W : Nat} {m m' : Market} {d : DepositParams} {isLong : Bool} {pv : Nat} {r : SideResult}
+    (h : SideFacts W m m' d isLong pv r) (tk : Bool) :
+    ledger m' tk = ledger m tk + (if tk = isLong then (if isLong then d.long else d.short) else 0) := by
+  have c1 : m'.collL = m.collL := by have e := congrArg Market.collL h.frame; exact e
+  have c2 : m'.collS = m.collS := by have e := congrArg Market.collS h.frame; exact e
+  have a := h.amount; have l1 := h.liq_same; have l2 := h.liq_opp; have i1 := h.imp_same; have i2 := h.imp_opp
+  have f1 := h.fee_same; have f2 := h.fee_opp
+  unfold ledger
+  rw [c1, c2]
+  rcases bool_cases tk isLong with e | e
+  · subst e; simp only [if_true]; omega
+  · subst e
+    have hne : ¬ (!isLong) = isLong := by cases isLong <;> simp
+    simp only [hne, if_false]; omega
+
+theorem deposit_ledger {W U : Nat} {m m' : Market} {d : DepositParams} {pin : PerpIn} {t : DepositTrace}
+    (h : deposit W U m d pin = (m', .ok t)) (tk : Bool) :
+    ledger m' tk = ledger m tk + (if tk then d.long else d.short) := by
+  obtain ⟨mL, mS, hL, hL0, hS, hS0, hm, _⟩ := (deposit_spec h).sides
+  have a : ledger mL tk = ledger m tk + (if tk = true then d.long else 0) := by
+    by_cases h0 : d.long = 0
+    · rw [(hL0 h0).1, h0]; simp
+    · have := side_ledger (hL h0) tk; simpa using this
+  have b : ledger mS tk = ledger mL tk + (if tk = false then d.short else 0) := by
+    by_cases h0 : d.short = 0
+    · rw [(hS0 h0).1, h0]; simp
+    · have := side_ledger (hS h0) tk; simpa using this
+  have c : ledger m' tk = ledger mS tk := by
+    unfold ledger
+    rw [congrArg Market.primary hm, congrArg Market.swapImpact hm, congrArg Market.fee hm, congrArg Market.collL hm,
+      congrArg Market.collS hm]
+  rw [c, b, a]
+  cases tk <;> simp
+
+theorem withdraw_ledger {W U : Nat} {m m' : Market} {w : WithdrawParams} {pin : PerpIn} {r : WithdrawReport}
+    (h : withdraw W U m w pin = (m', .ok r)) (tk : Bool) :
+    ledger m' tk + (if tk then r.longOut else r.shortOut) = ledger m tk := by
+  have f := withdraw_spec h
+  have c1 : m'.collL = m.collL := by have e := congrArg Market.collL f.frame; exact e
+  have c2 : m'.collS = m.collS := by have e := congrArg Market.collS f.frame; exact e
+  have a1 := f.liq_long; have a2 := f.liq_short; have b1 := f.fee_long; have b2 := f.fee_short
+  unfold ledger
+  rw [c1, c2, f.impact]
+  cases tk <;> simp only [Pool.amount, if_true, Bool.false_eq_true, if_false] <;> omega
+
+theorem swap_ledger {W U : Nat} {m m' : Market} {q : SwapParams} {c : SwapCalc}
+    (h : swap W U m q = .ok (m', c)) (tk : Bool) :
+    ledger m' tk + tokAmt (!q.isInLong) tk c.tokenOut = ledger m tk + tokAmt q.isInLong tk q.amount := by
+  unfold swap at h
+  repeat' (split at h)
+  all_goals first | (cases h; done) | skip
+  cases h
+  have hc := swapCalc_spec ‹swapCalc W U m q = some _›
+  have ha := swapApply_spec ‹swapApply W m q _ = some _›
+  obtain ⟨hsum, _, hpos, hneg⟩ := hc
+  have c1 : m'.collL = m.collL := by have e := congrArg Market.collL ha.frame; exact e
+  have c2 : m'.collS = m.collS := by have e := congrArg Market.collS ha.frame; exact e
+  have x1 := ha.fee_in; have x2 := ha.fee_out; have x3 := ha.liq_in; have x4 := ha.liq_out
+  unfold ledger tokAmt
+  rw [c1, c2]
+  by_cases hp : c.impactValue > 0
+  · obtain ⟨y1, y2⟩ := ha.imp_pos hp
+    have p := hpos hp
+    have p1 := p.tokenIn; have p2 := p.tokenOut
+    rcases bool_cases tk q.isInLong with e | e
+    · subst e
+      have hne : ¬ (!q.isInLong) = q.isInLong := by cases q.isInLong <;> simp
+      simp only [hne, if_false, if_true]; omega
+    · subst e
+      have hne : ¬ q.isInLong = (!q.isInLong) := by cases q.isInLong <;> simp
+      simp only [hne, if_false, if_true]; omega
+  · obtain ⟨y1, y2⟩ := ha.imp_neg hp
+    have p := hneg hp
+    have p1 := p.tokenIn; have p2 := p.tokenOut; have p3 := p.cappedIn
+    rcases bool_cases tk q.isInLong with e | e
+    · subst e
+      have hne : ¬ (!q.isInLong) = q.isInLong := by cases q.isInLong <;> simp
+      simp only [hne, if_false, if_true]; omega
+    · subst e
+      have hne : ¬ q.isInLong = (!q.isInLong) := by cases q.isInLong <;> simp
+      simp only [hne, if_false, if_true]; omega
 
 end Gmx.Lem
